@@ -49,7 +49,8 @@ URL_SCHEMES = {"http": None, "https": None, "mailto": None, "wiki": {"url": "htt
 def base_settings(scratch):
     return {
         "myst_enable_extensions": EXT, "myst_heading_anchors": 2, "myst_title_to_header": True,
-        "myst_inventories": {"k": ["http://x", str(scratch / "bad.inv")], "ok": ["http://y", str(scratch / "ok.inv")]},
+        "myst_inventories": {"k": ["http://x", str(scratch / "bad.inv")], "ok": ["http://y", str(scratch / "ok.inv")], "z": ["http://z", str(scratch / "zbad.inv")],
+                             "sp": ["http://bad host/with space", None]},
         "myst_substitutions": SUBS, "myst_fence_as_directive": ["mermaid", "note"], "myst_number_code_blocks": ["py"],
         "myst_url_schemes": URL_SCHEMES,
     }
@@ -63,6 +64,8 @@ def prepare_files(d):
     (d / "bin.md").write_bytes(b"\xff\xfe\x00")
     (d / "bad.inv").write_text("junk")
     (d / "ok.inv").write_bytes(make_v2("P", "1", ["x std:label -1 a.html#$ -"]))
+    # a valid version-2 header followed by a payload that is not a zlib stream
+    (d / "zbad.inv").write_bytes(b"# Sphinx inventory version 2\n# Project: Z\n# Version: 1\n# The remainder of this file is compressed using zlib.\n" + b"this is not zlib data" * 3)
     (d / "self.md").write_text("before\n\n```{include} self.md\n```\n")
     (d / "self2.md").write_text("before\n\n```{include} adir/../self2.md\n```\n")
     (d / "adir" / "inc3.md").write_text("```{include} ../inc4.md\n```\n")
